@@ -676,7 +676,7 @@ class Interp:
             if op is ast.Mult:
                 return Sym(a * b, kind)
             if op is ast.Div:
-                self.obligations.append(("division by zero", b != 0))
+                self.oblige("division by zero", b != 0)
                 return Sym(a / b, "real")
             if op is ast.FloorDiv and kind == "int":
                 # Python floor division; z3 div is floor for positive divisors, ceil for negative ones
@@ -766,6 +766,10 @@ class Interp:
                 if self.p.branch(idx.e == -k):
                     return base[-k]
             raise PyRaise("IndexError", "symbolic index out of range")
+        if isinstance(base, Sym) and base.meta.get("zarray") is not None and not isinstance(idx, (tuple, slice)):
+            zi = self.as_z3(idx, "int")
+            if zi is not None:
+                return Sym(z3.Select(base.meta["zarray"], zi), "real")
         idxs = list(idx) if isinstance(idx, tuple) else [idx]
         idxs = [("slice", i.start, i.stop, i.step) if isinstance(i, slice) else i for i in idxs]
         flat = []
@@ -1042,7 +1046,7 @@ class Interp:
                     # bounded unrolling with an unwinding assertion (complete when the assertion is proved)
                     if n >= self.unroll:
                         cz = c.e if c.kind == "bool" else (c.e != 0)
-                        self.obligations.append((f"unwinding assertion ({self.unroll} iterations) of `while {ast.unparse(s.test)}`", z3.Not(cz)))
+                        self.oblige(f"unwinding assertion ({self.unroll} iterations) of `while {ast.unparse(s.test)}`", z3.Not(cz))
                         self.p.pc.append(z3.Not(cz))
                         break
                     if not self.truth(c):
